@@ -151,6 +151,24 @@ def run_single(csvpath_text, method="collect", n=None, *, policy=None, delimiter
     return out, p
 
 
+def write_xlsx(name, sheets):
+    """a workbook with one worksheet per entry of `sheets` ({sheet name: records}); returns its path"""
+    import pylightxl as xl
+
+    os.makedirs("data", exist_ok=True)
+    path = os.path.join("data", name)
+    db = xl.Database()
+    for ws, recs in sheets.items():
+        db.add_ws(ws=ws)
+        for i, rec in enumerate(recs, 1):
+            for j, cell in enumerate(rec, 1):
+                db.ws(ws).update_index(row=i, col=j, val=cell)
+    if os.path.exists(path):
+        os.remove(path)
+    xl.writexl(db=db, fn=path)
+    return path
+
+
 def write_file(name, records, delimiter=",", quotechar='"'):
     path = os.path.join("data", name)
     realenv.write_csv(path, records, delimiter=delimiter, quotechar=quotechar)
